@@ -9,7 +9,7 @@ package decor
 
 //@ iface Decorator.Decor
 //@   params   stat
-//@   modifies pkgstate("decor"), sent(), recvd()
+//@   modifies pkgstate("decor"), sent("chan int"), recvd("chan int")
 //@   ensures  honest: result1 >= 0 && dw(result0) == result1
 
 // width configuration: Format pads (never truncates) to the width it computed; with
@@ -79,7 +79,7 @@ package decor
 
 //@ iface Formatter.Format
 //@   params   str
-//@   modifies sent(), recvd()
+//@   modifies sent("chan int"), recvd("chan int")
 //@   ensures  honest: result1 >= 0 && dw(result0) == result1
 
 //@ functype decor_any.fn
@@ -108,59 +108,59 @@ package decor
 
 //@ func (any).Decor
 //@   props    C07 C12
-//@   modifies pkgstate("decor"), sent(), recvd()
+//@   modifies pkgstate("decor"), sent("chan int"), recvd("chan int")
 //@   ensures  honest: result1 >= 0 && dw(result0) == result1
 
 //@ func (*movingAverageETA).Decor
 //@   props    C07 C12 C20
 //@   noovf
 //@   requires d != nil
-//@   modifies pkgstate("decor"), sent(), recvd()
+//@   modifies pkgstate("decor"), sent("chan int"), recvd("chan int")
 //@   ensures  honest: result1 >= 0 && dw(result0) == result1
 
 //@ func (*averageETA).Decor
 //@   props    C07 C12 C20
 //@   noovf
 //@   requires d != nil
-//@   modifies pkgstate("decor"), sent(), recvd()
+//@   modifies pkgstate("decor"), sent("chan int"), recvd("chan int")
 //@   ensures  honest: result1 >= 0 && dw(result0) == result1
 
 //@ func (*movingAverageSpeed).Decor
 //@   props    C07 C12 C20
 //@   requires d != nil
-//@   modifies pkgstate("decor"), sent(), recvd()
+//@   modifies pkgstate("decor"), sent("chan int"), recvd("chan int")
 //@   ensures  honest: result1 >= 0 && dw(result0) == result1
 
 //@ func (*averageSpeed).Decor
 //@   props    C07 C12 C20
 //@   requires d != nil
-//@   modifies pkgstate("decor"), sent(), recvd()
+//@   modifies pkgstate("decor"), sent("chan int"), recvd("chan int")
 //@   ensures  honest: result1 >= 0 && dw(result0) == result1
 //@   ensures  frozen@C20: s.Completed ==> d.msg == old(d.msg) && calledWith("(WC).Format", 1) == old(d.msg)
 
 //@ func (metaWrapper).Decor
 //@   props    C07 C12
-//@   modifies pkgstate("decor"), sent(), recvd()
+//@   modifies pkgstate("decor"), sent("chan int"), recvd("chan int")
 //@   ensures  honest: result1 >= 0 && dw(result0) == result1
 
 //@ func (onCompleteWrapper).Decor
 //@   props    C07 C12
-//@   modifies pkgstate("decor"), sent(), recvd()
+//@   modifies pkgstate("decor"), sent("chan int"), recvd("chan int")
 //@   ensures  honest: result1 >= 0 && dw(result0) == result1
 
 //@ func (onAbortWrapper).Decor
 //@   props    C07 C12
-//@   modifies pkgstate("decor"), sent(), recvd()
+//@   modifies pkgstate("decor"), sent("chan int"), recvd("chan int")
 //@   ensures  honest: result1 >= 0 && dw(result0) == result1
 
 //@ func (onCompleteMetaWrapper).Decor
 //@   props    C07 C12
-//@   modifies pkgstate("decor"), sent(), recvd()
+//@   modifies pkgstate("decor"), sent("chan int"), recvd("chan int")
 //@   ensures  honest: result1 >= 0 && dw(result0) == result1
 
 //@ func (onAbortMetaWrapper).Decor
 //@   props    C07 C12
-//@   modifies pkgstate("decor"), sent(), recvd()
+//@   modifies pkgstate("decor"), sent("chan int"), recvd("chan int")
 //@   ensures  honest: result1 >= 0 && dw(result0) == result1
 
 // constructors (they establish the struct invariants above)
